@@ -521,15 +521,20 @@ func (w *world) runFunction(ctx context.Context, name string, req *fnv1.RunFunct
 			w.emit("env", map[string]any{"verb": "pipeline-fails", "target": "none"})
 			rsp.Results = []*fnv1.Result{{Severity: fnv1.Severity_SEVERITY_FATAL, Message: "fatal"}}
 			return rsp, nil
-		case "reqloop", "reqlabel":
+		case "reqloop", "reqlabel", "reqflip":
 			// requirements that never stabilise: a different object name each round, or (reqlabel) the same
-			// selector name / kind with different labels each round (added after the seeded change C03-m1 was missed)
+			// selector name / kind with different labels each round (added after the seeded change C03-m1 was missed),
+			// or (reqflip) two names in alternation - every value was seen before, but never in the round before
+			// (added after the seeded change C03-m11 was missed)
 			w.reqRound++
 			if !w.pfail {
 				w.pfail = true
 				w.emit("env", map[string]any{"verb": "pipeline-fails", "target": "none"})
 			}
 			sel := &fnv1.ResourceSelector{ApiVersion: "ex.org/v1", Kind: "Extra", Match: &fnv1.ResourceSelector_MatchName{MatchName: fmt.Sprintf("extra-%d", w.reqRound)}}
+			if kind == "reqflip" {
+				sel.Match = &fnv1.ResourceSelector_MatchName{MatchName: fmt.Sprintf("extra-%d", w.reqRound%2)}
+			}
 			if kind == "reqlabel" {
 				sel.Match = &fnv1.ResourceSelector_MatchLabels{MatchLabels: &fnv1.MatchLabels{Labels: map[string]string{"round": fmt.Sprintf("%d", w.reqRound)}}}
 			}
